@@ -75,6 +75,15 @@ def gen_docs(level=1):
                "version": versions[0]}
         yield {"contracts": {"a.sol:I": copy.deepcopy(noasm)}, "version": versions[0]}
     yield {"contracts": {}, "version": versions[0]}
+    # several code-bearing data sections in one contract (run code + child contracts)
+    for a, b in (("plain", "pseudo"), ("zeros", "splits"), ("pseudo", "zeros")):
+        asm = {".code": copy.deepcopy(pool_["plain"]),
+               ".data": {"0": {".auxdata": "aa", ".code": copy.deepcopy(pool_[a])},
+                         "1": {".auxdata": "bb", ".code": copy.deepcopy(pool_[b]),
+                               ".data": {"0": {".auxdata": "cc", ".code": copy.deepcopy(pool_["zeros"])}}},
+                         "2": {".code": copy.deepcopy(pool_["nosource"])},
+                         "ACAF3289D7B601CBD114FB36C4D29C85BBFD5E133F14CB355C3FD8D99367964F": "6e6f6e"}}
+        yield {"contracts": {"a.sol:Factory": {"asm": asm}}, "version": versions[0]}
     # contract with run code but empty init, no .data key at all is not solc output -> not generated
 
 
